@@ -595,8 +595,8 @@ func bkStartConn(b *bkState, a []string) (*bkConn, string) {
 	b.order = append(b.order, n)
 	go b.reader(c)
 	go func() {
+		// like the bundled listeners: the error is only logged, closing the connection is the broker's job
 		_ = b.s.EstablishConnection("t", c2)
-		c2.Close()
 		close(c.done)
 	}()
 	// CONNECT
